@@ -4110,7 +4110,11 @@ def apply_delta(
         src_buf = b"".join(src_buf)
     if not isinstance(delta, bytes):
         delta = b"".join(delta)
-    out = []
+    # Operations are validated and their total size compared with the
+    # declared one before any output is materialised, so that a corrupt
+    # delta cannot make us allocate more than it could ever return.
+    ops: list[tuple[bytes, int, int]] = []
+    out_size = 0
     index = 0
     delta_length = len(delta)
 
@@ -4169,14 +4173,16 @@ def apply_delta(
             if (
                 cp_off + cp_size < cp_size
                 or cp_off + cp_size > src_size
-                or cp_size > dest_size
+                or cp_size > dest_size - out_size
             ):
                 break
-            out.append(src_buf[cp_off : cp_off + cp_size])
+            ops.append((src_buf, cp_off, cp_size))
+            out_size += cp_size
         elif cmd != 0:
             if index + cmd > delta_length:
                 raise ApplyDeltaError("delta truncated in insert op")
-            out.append(delta[index : index + cmd])
+            ops.append((delta, index, cmd))
+            out_size += cmd
             index += cmd
         else:
             raise ApplyDeltaError("Invalid opcode 0")
@@ -4184,10 +4190,10 @@ def apply_delta(
     if index != delta_length:
         raise ApplyDeltaError(f"delta not empty: {delta[index:]!r}")
 
-    if dest_size != chunks_length(out):
+    if dest_size != out_size:
         raise ApplyDeltaError("dest size incorrect")
 
-    return out
+    return [buf[start : start + size] for buf, start, size in ops]
 
 
 def write_pack_index_v2(
